@@ -857,3 +857,21 @@ register(CORE, "GroupBy._apply_gb_func_across_chunked_group_keys::loop(for j, re
           "first_chunk_in": "int", "reducer": "step:STEP"},
          _chunkmerge_contract(), specs={"STEP_acc": stepA, "STEP_cnt": stepC, "MAg": MAg, "MCg": MCg, "NULLSLOT": lambda: _NULLSLOT},
          callees={"numba_funcs.reduce_array_pair": _RapCallee()}, props=("C03", "C04", "C06", "C11"), lemma_deps=("L-merge", "L-merge-step"))
+
+# ----------------------------------------------------------------------------- GroupBy._unify_group_key_chunks: chunk-local codes -> global codes (core.py, C13 / C06 / C02)
+# The state change behind "a GroupBy object can be reused": transform, row selection, cumulative / rolling operations, groups, apply ... replace the chunk-local codes by global
+# ones in place and drop the pointer tables. Its loop is extracted mechanically (the rest of the method re-wraps the list as a pyarrow / NumPy array and assigns attributes of
+# self: outside the subset).  Proved: every new chunk has the length of the old one, a row with a key gets the GLOBAL code its local code pointed to, a null-key row (-1) stays -1 -
+# it is never used as an index (p[-1] would silently be the chunk's last label).  Vectorised NumPy (k >= 0, k[m], p[...], codes[m] = ...) is executed as defined by NumPy, the
+# boolean-mask reads kept as (element function, mask) pairs.
+def _unify_contract():
+    P = "self._group_key_pointers"; K = "self._group_ikey.chunks"
+    row = lambda c, r: f"ite({K}[{c}][{r}] >= 0, {P}[{c}][{K}[{c}][{r}]], -1)"
+    done = lambda n: f"forall(c, 0, {n}, len(chunks[c]) == len({K}[c]) and forall(r, 0, len({K}[c]), chunks[c][r] == {row('c', 'r')}))"
+    return {"fragment_params": ["self", "chunks"],
+            "requires": ["len(chunks) == 0", f"len({P}) == len({K})", f"forall(c, 0, len({K}), forall(r, 0, len({K}[c]), -1 <= {K}[c][r] and {K}[c][r] < len({P}[c])))"],
+            "loops": {0: {"iter": f"zip({P}, {K})", "appended_lists": ["chunks"], "invariant": ["len(chunks) == _it0", done("_it0")]}},
+            "ensures": [f"len(chunks) == len({K})", done(f"len({K})")]}
+register(CORE, "GroupBy._unify_group_key_chunks::loop(for p, k in zip(self._group_key_pointers, self._group_ikey.chunks))", "pointer tables",
+         {"self": {"_group_key_pointers": "chunks:int:int64", "_group_ikey": {"chunks": "chunks:int:int64"}}, "chunks": "chunks:int:int64"},
+         _unify_contract(), specs={}, props=("C13", "C06", "C02"))
